@@ -70,8 +70,8 @@ func hhmm(r *vlib.R, m int) string {
 
 func runC14(tier string, _ []string) int {
 	c := vlib.NewCtx("C14", tier, "exploration")
-	c.SetRule("configs: PRNG (start,end) minute pairs incl. all boundary pairs (00:00/23:59/equal/adjacent/wrap), weekday subsets (all 128 reachable), date lists incl. month/year ends and Feb 29; instants: every minute of a full week around an anchor (anchors: plain week, year end, leap day, month end) plus the seconds/nanoseconds around every window edge, each instant in UTC, +14:00, -12:00, +05:45 and -03:30; oracle = the day-D definition of the property, plus agreement across zones. distinct = (start<end | start==end | wrap, weekday filter size, date filter?, anchor); finally 400 instants in a jumbled order (all anchors, all zones) asked of ONE schedule value in a row. The process itself runs in a zone 13 h ahead of / 11 h behind UTC (or +05:45 / -09:30, by seed). End to end: rules with 1-3 schedule conditions run in a real rule client on an instance; the weekday list is written in the layouts a front end may use (all seven days, only the chosen days, a run of days from Sunday on, index 0 under a blank key; before the rule starts or while it runs), a sibling node sends about 90 trigger points carrying chosen instants (window edges +-1 ns, random minutes over ten days, in several zones), and after every processed trigger batch - those and the rule's own ten-second ticker's - each condition's active state (rule.batchDone hook site) must equal the definition for the instant the trigger carries")
-	c.Assume("only well-formed HH:MM / YYYY-MM-DD strings are generated")
+	c.SetRule("configs: PRNG (start,end) minute pairs incl. all boundary pairs (00:00/23:59/equal/adjacent/wrap), weekday subsets (all 128 reachable), date lists incl. month/year ends, Feb 29 and entries that name no calendar day (Feb 30, month 13, day 0); instants: every minute of a full week around an anchor (anchors: plain week, year end, leap day, month end) plus the seconds/nanoseconds around every window edge, each instant in UTC, +14:00, -12:00, +05:45 and -03:30; oracle = the day-D definition of the property, plus agreement across zones. distinct = (start<end | start==end | wrap, weekday filter size, date filter?, anchor); finally 400 instants in a jumbled order (all anchors, all zones) asked of ONE schedule value in a row. The process itself runs in a zone 13 h ahead of / 11 h behind UTC (or +05:45 / -09:30, by seed). End to end: rules with 1-3 schedule conditions run in a real rule client on an instance; the weekday list is written in the layouts a front end may use (all seven days, only the chosen days, a run of days from Sunday on, index 0 under a blank key; before the rule starts or while it runs), a sibling node sends about 90 trigger points carrying chosen instants (window edges +-1 ns, random minutes over ten days, in several zones), and after every processed trigger batch - those and the rule's own ten-second ticker's - each condition's active state (rule.batchDone hook site) must equal the definition for the instant the trigger carries")
+	c.Assume("only strings of the form HH:MM / YYYY-MM-DD are generated (among the dates some that name no calendar day: they allow none)")
 	// the host's own zone must not matter either: the process runs in one whose date differs from the UTC date
 	// for half of the day
 	hostZones := []*time.Location{time.FixedZone("host+13", 13*3600), time.FixedZone("host-11", -11*3600), time.FixedZone("host+0545", 5*3600+45*60), time.FixedZone("host-0930", -(9*3600 + 30*60))}
@@ -131,6 +131,25 @@ func runC14(tier string, _ []string) int {
 				}
 				r.Shuffle(len(cfg.Dates), func(a, b int) { cfg.Dates[a], cfg.Dates[b] = cfg.Dates[b], cfg.Dates[a] })
 			}
+		}
+		if len(cfg.Dates) > 0 && i%3 == 1 {
+			// entries that have the form of a date but name no calendar day (February 30th, month 13, day 0):
+			// they allow no day - in particular not the day a lenient calendar would turn them into, which
+			// lies inside the week that is examined
+			ghost := map[string][]string{
+				"2023-07-16": {"2023-06-47", "2023-07-00", "2022-19-18"},
+				"2023-12-28": {"2023-12-32", "2023-13-01", "2023-12-00"},
+				"2024-02-26": {"2024-02-30", "2024-02-31", "2023-14-28"},
+				"2023-02-25": {"2023-02-29", "2023-02-30", "2023-01-58"},
+				"2025-04-27": {"2025-04-31", "2025-05-00", "2025-03-60"},
+				"1999-12-29": {"1999-12-32", "1999-13-02", "2000-00-31"},
+			}[anchor.Format("2006-01-02")]
+			for _, gdate := range ghost {
+				if r.Chance(0.6) {
+					cfg.Dates = append(cfg.Dates, gdate)
+				}
+			}
+			r.Shuffle(len(cfg.Dates), func(a, b int) { cfg.Dates[a], cfg.Dates[b] = cfg.Dates[b], cfg.Dates[a] })
 		}
 		if i%12 == 7 {
 			// a fixed corner that does not depend on the draw: a window that wraps past midnight, filtered
